@@ -23,6 +23,7 @@ import (
 	"github.com/olric-data/olric/internal/protocol"
 	"github.com/olric-data/olric/internal/resp"
 	"github.com/olric-data/olric/internal/util"
+	"github.com/olric-data/olric/internal/verifhook"
 	"github.com/olric-data/olric/pkg/storage"
 )
 
@@ -59,6 +60,7 @@ func (dm *DMap) atomicIncrDecr(cmd string, e *env, delta int) (int, error) {
 	if err != nil {
 		return 0, err
 	}
+	verifhook.Point(dm.s.rt.This().Name, "atomic.read-write")
 
 	var updated int
 	switch cmd {
@@ -126,6 +128,7 @@ func (dm *DMap) getPut(e *env) (storage.Entry, error) {
 	if err != nil {
 		return nil, err
 	}
+	verifhook.Point(dm.s.rt.This().Name, "atomic.read-write")
 	err = dm.put(e)
 	if err != nil {
 		return nil, err
@@ -194,6 +197,7 @@ func (dm *DMap) atomicIncrByFloat(e *env, delta float64) (float64, error) {
 		}
 	}
 
+	verifhook.Point(dm.s.rt.This().Name, "atomic.read-write")
 	latest := current + delta
 	if err != nil {
 		return 0, err
